@@ -44,7 +44,7 @@ load_stream = lambda name="load", flavours=("rel", "dbg"): Stream(
     nontrivial=not_trivial_load, rule=LOAD_RULE, timeout=600)
 
 reg(Prop("C16", ["Properties_C16"], [
-    Stream("utf8", "utf8", utf8gen.utf8_cases, flavours=("rel", "dbg"), spec="utf8_spec",
+    Stream("utf8", "utf8", utf8gen.utf8_cases, stateless=True, flavours=("rel", "dbg"), spec="utf8_spec",
            nontrivial=lambda c, l: c != "-" and not l.startswith("cp=0 "),
            rule="all byte strings of length 0-2 exhaustively, length 3-4 over UTF-8 byte-class representatives, random valid scalars with single injected faults; three code paths (set_handle, build_stringn, cbor_load); non-trivial = non-empty and valid (count > 0)"),
     Stream("dfa", "dfa", utf8gen.dfa_cases, flavours=("rel",), exhaustive=True,
@@ -53,23 +53,26 @@ reg(Prop("C16", ["Properties_C16"], [
 ], level_note="Theorem over all byte strings about the model of unicode.c with the table regenerated from the source; model tied to the compiled code by the utf8/dfa streams"))
 
 reg(Prop("C08", ["Properties_C08"], [
-    Stream("dec1", "dec1", streamgen.dec1_cases, flavours=("rel", "dbg"),
+    Stream("dec1", "dec1", streamgen.dec1_cases, stateless=True, flavours=("rel", "dbg"),
            nontrivial=lambda c, l: c != "-",
            rule="every initial byte x every buffer length 0..full+1; 1-byte arguments exhaustive, 2-byte exhaustive for halves / strided for ints, boundary+random 4/8-byte arguments incl. declared string lengths up to 2^64-1; exactly-sized heap blocks; a recording callback table (exactly one callback or none); every initial byte's smallest complete head followed by each of the 256 possible next bytes and by itself (a FINISHED result may not depend on bytes beyond read); non-trivial = non-empty buffer"),
 ], judge=judges.dec1_judge,
    level_note="Theorems about the model of streaming.c (dispatch table regenerated from the switch on every run, bridge lemma); model tied to the compiled code by the dec1 stream in release and ASan/UBSan builds"))
 
 reg(Prop("C09", ["Properties_C09"], [
-    Stream("frag", "frag", streamgen.frag_cases, flavours=("rel", "dbg"),
+    Stream("frag", "frag", streamgen.frag_cases, stateless=True, flavours=("rel", "dbg"),
            nontrivial=lambda c, l: " " in c and not l.startswith("- "),
            rule="every ordered pair of head classes (major type x argument form, reserved bytes included) and every initial byte followed by itself, delivered one-shot / cut at the token boundary / cut inside the first head / byte-at-a-time; concatenations of enumerated / random items and raw head sequences x every single cut, byte-at-a-time, random cuts; the C client loop of hx calls the real decoder on exactly the buffered bytes; non-trivial = at least one cut and one event"),
+    Stream("frag-fixed", "frag", streamgen.frag_cases, flavours=("rel",), env={"HX_FIXEDRX": "1"}, stateless=True,
+           nontrivial=lambda c, l: " " in c and not l.startswith("- "),
+           rule="the same deliveries with the client presenting its bytes at the start of ONE fixed receive buffer reused by every call of every case (streams abandoned mid-item are followed by new streams at the same address), also in shuffled order: the decoder may key nothing on the buffer address"),
 ], level_note="Theorem about the client model (PDrive.v) over the decoder model; the C client loop in hx.c is tied by the frag stream"))
 
 reg(Prop("C10", ["Properties_C10"], [
-    Stream("encdec", "encdec", encdec_cases, flavours=("rel", "dbg"),
+    Stream("encdec", "encdec", encdec_cases, stateless=True, flavours=("rel", "dbg"),
            nontrivial=lambda c, l: not l.startswith("0 "),
            rule="every public encoder x (8/16-bit domains exhaustive or densely strided, every power of two +-1, width boundaries, random 32/64-bit values; all 65,536 half values; float pattern sets); encode then decode the bytes written + one trailing byte; non-trivial = encoder wrote something"),
-    Stream("enc", "enc", streamgen.enc_cases, flavours=("rel",), nontrivial=lambda c, l: not l.startswith("0 "),
+    Stream("enc", "enc", streamgen.enc_cases, stateless=True, flavours=("rel",), nontrivial=lambda c, l: not l.startswith("0 "),
            rule="(encoder, value, buffer size 0..10): return value and the exact bytes stored (two-sentinel image)"),
 ], level_note="Theorems about encoder and decoder models; tied by the encdec/enc streams"))
 
@@ -91,12 +94,12 @@ reg(Prop("C20", ["Properties_C20"], [
    level_note="Theorems for every word width about the guard models; tied by the mem stream"))
 
 reg(Prop("C15", ["Properties_C15"], [
-    Stream("floatdec", "dec1", streamgen.float_dec_cases, flavours=("rel", "dbg"), nontrivial=lambda c, l: True, exhaustive=False,
+    Stream("floatdec", "dec1", streamgen.float_dec_cases, stateless=True, flavours=("rel", "dbg"), nontrivial=lambda c, l: True, exhaustive=False,
            rule="decoder: all 65,536 half patterns (exhaustive), single / double pattern sets (every exponent x boundary mantissas + random); the value is compared as the binary32/64 bits the callback receives (NaN canonical)"),
     Stream("halfser", "ser", half_tree_cases, flavours=("rel",), nontrivial=lambda c, l: True, exhaustive=True,
            rule="all 65,536 half values as items: serialization reproduces the original two bytes (NaN -> 7e00)"),
     Stream("floatenc", "enc", lambda ctx: [c for c in streamgen.enc_cases(ctx) if c.split()[0] in ("half", "single", "double")],
-           flavours=("rel", "dbg"), nontrivial=lambda c, l: True,
+           stateless=True, flavours=("rel", "dbg"), nontrivial=lambda c, l: True,
            rule="cbor_encode_half on every exponent class x boundary mantissas (incl. values no half can represent: totality), singles, doubles"),
 ], level_note="Flocq theorems about decode_half; sweeps over all half patterns; tied by exhaustive half streams"))
 
@@ -407,6 +410,8 @@ sizesser = lambda: Stream("sizes-ser", "sizesser", treegen.sizesser_cases, flavo
                           expect=lambda c: "ser=0,0,0,0,0,0",
                           rule="the forged-length trees whose every declared string length is >= 2^32, handed to cbor_serialize with buffers of 0, 1, 9, 10, 18 and 64 bytes (exactly-sized heap blocks under ASan; 16 sentinel bytes behind the buffer otherwise): the result must be 0 and nothing may be stored past the buffer (closed form from C07_into / ssize_s_exact_or_zero: the encoding cannot fit)")
 PROPS["C20"].streams.append(sizesser())
+PROPS["C20"].streams.append(Stream("ser", "ser", treegen.ser_cases, flavours=("rel",), nontrivial=lambda c, l: True,
+                                   rule="API-built trees incl. partially filled definite containers whose capacity and size lie on different sides of a head-width boundary: cbor_serialized_size must be the exact total (see C07)"))
 PROPS["C07"].streams.append(sizesser())
 PROPS["C04"].streams.append(struct_fault(("rel",), None, "growth-fault"))
 PROPS["C12"].streams.append(struct_fault(("rel",), None, "growth-fault"))
@@ -417,6 +422,18 @@ sethandle = lambda flavours=("rel",), env=None, name="set-handle": Stream(
 PROPS["C13"].streams += [sethandle(("rel",), {"HX_ALLOC": "tag"}, "set-handle-tag"), sethandle(("dbg",), None, "set-handle")]
 PROPS["C04"].streams.append(sethandle(("rel", "dbg")))
 PROPS["C16"].streams.append(sethandle(("rel",)))
+PROPS["C03"].streams.append(sethandle(("rel",)))
+loaduse = lambda flavours=("rel", "dbg"), env=None, name="load-use": Stream(
+    name, "hist", histgen.load_use_cases, args=(LDEF, CAP, "none", 0), flavours=flavours, env=env, nontrivial=lambda c, l: True, timeout=600,
+    rule="decode an item of every container / chunked / tag kind (empty, one short of and at every growth boundary, nested), then MODIFY the decoded tree through the public API (push / set / replace / get, map add, add chunk, tag item) and serialize / copy / release it: per-step results, sizes / capacities, reference counts and the complete allocator trace against model H (the decoder's bookkeeping must be what the mutators rely on)")
+tagreset = lambda flavours=("rel", "dbg"), env=None, name="tag-reset": Stream(
+    name, "hist", histgen.tag_reset_cases, args=(LDEF, CAP, "none", 0), flavours=flavours, env=env, nontrivial=lambda c, l: True, timeout=600,
+    rule="cbor_tag_set_item on a tag that already has an item (documented: pointer replaced, no reference count change on the previous item, whose reference the client inherits), incl. a new item that is a descendant of the old one held only through it, self-assignment, decoded and API-built tags")
+for _p in ("C02", "C01", "C12", "C04"):
+    PROPS[_p].streams.append(loaduse())
+PROPS["C13"].streams += [loaduse(("rel",), {"HX_ALLOC": "tag"}, "load-use-tag"), tagreset(("rel",), {"HX_ALLOC": "tag"}, "tag-reset-tag")]
+PROPS["C04"].streams.append(tagreset())
+PROPS["C07"].streams.append(sethandle(("rel", "dbg")))
 PROPS["C16"].streams.append(Stream("text-positions", "load", lambda ctx: [cborgen.hx(b) for b in cborgen.text_positions()], args=(LDEF, CAP), flavours=("rel", "dbg"),
                                    spec="load_spec", nontrivial=not_trivial_load,
                                    rule="text strings of every validity class (lone lead / continuation bytes, overlong, surrogate, beyond U+10FFFF, truncated, boundary scalars, NUL, empty) in every position: top level, array element, definite / indefinite map key and value, tag content, chunk, nested: cbor_load must accept each with the bytes intact (C16_content_preserved)"))
